@@ -94,6 +94,9 @@ func generalPlan(tier string, faults bool) []PlanItem {
 		{scnFailoverDel("failover-del2-K1", K1, "A", "B"), d + 1},
 		{scnFailoverDel("failover-del3-K1", K1, "A", "B", "C"), d},
 		{scnFailoverDel("failover-del2-K2", K2, "A", "B"), d},
+		{scnElect("elect2-K3", K3, "A", "B"), d},
+		{scnFailoverDel("failover-del2-K3", K3, "A", "B"), d},
+		{scnElect("elect4-K1", K1, "A", "B", "C", "D"), d},
 		{scn2groups("2groups-K1", K1), d},
 	}
 	for _, sv := range stopVariants {
